@@ -482,6 +482,14 @@ int main(void)
 			for (int i = 0; i < 3; i++) { mpt_identifier_init(&src[i], sizeof(src[i])); if (!mpt_identifier_set(&src[i], name, (int) (a + i))) bad = 1; }
 			if (!mpt_array_set(&x, t, sizeof(src), src, 0)) bad = 2;
 			else {
+				/* a source with a larger inline capacity than an element (its name may live inside the source but
+				 * has to go to the heap in the element): element 1 is replaced by a copy of it, then restored */
+				MPT_STRUCT(identifier) *big = mpt_identifier_new(a + 8);
+				if (!big || !mpt_identifier_set(big, name, (int) (a + 1))) bad = 8;
+				else if (!mpt_array_set(&x, t, sizeof(src[0]), big, 1)) bad = 9;
+				else if (mpt_identifier_inequal(&((const MPT_STRUCT(identifier) *) (x._buf + 1))[1], big)
+				      || mpt_identifier_inequal(&((const MPT_STRUCT(identifier) *) (x._buf + 1))[2], &src[2])) bad = 10;
+				if (big) { mpt_identifier_set(big, 0, 0); free(big); }
 				mpt_array_clone(&y, &x);
 				if (!mpt_array_slice(&y, 0, y._buf->_used)) bad = 3;                 /* private copy of all three */
 				else if (!mpt_array_set(&y, t, sizeof(src[0]), &src[2], 0)) bad = 4;  /* element 0 replaced */
